@@ -69,6 +69,9 @@ def cases(ctx):
         for z in (0, 1, 17):
             for enc in (False, True):
                 yield ("core", ln, z, enc)
+    for ln in (1000, 1023, 1024, 1025, 2048, 2049, 4096, 4097, 65536, 65537):
+        for enc in (False, True):
+            yield ("core", ln, 0, enc)
     for v in deviations(DIMS, 3 if ctx.quick else 4):
         yield ("bf3",) + v
     for oi in range(len(ORDERS)):
